@@ -120,7 +120,7 @@ func c19(c *Ctx) {
 		n := 0
 		for _, call := range astx.Calls(mainFn.Body(), false) {
 			fn := astx.Callee(info, call)
-			if fn == nil || fn.Pkg() == nil || fn.Pkg().Path() != pathRaft || fn.Name() != "NewRaft" {
+			if fn == nil || fn.Pkg() == nil || fn.Pkg().Path() != pathRaft || fname(fn) != "NewRaft" {
 				continue
 			}
 			n++
@@ -215,7 +215,7 @@ func c19(c *Ctx) {
 				for _, f := range g.FactsAt(v.ID) {
 					if f.Tag == nil && !f.Val {
 						if cc, isC := ast.Unparen(f.Expr).(*ast.CallExpr); isC {
-							if fn := astx.Callee(info, cc); fn != nil && fn.Name() == "IsZero" {
+							if fn := astx.Callee(info, cc); fn != nil && fname(fn) == "IsZero" {
 								if se, ok := ast.Unparen(cc.Fun).(*ast.SelectorExpr); ok {
 									if s2, ok := ast.Unparen(se.X).(*ast.SelectorExpr); ok && s2.Sel.Name == "Result" {
 										okF = true
@@ -532,7 +532,7 @@ func c19(c *Ctx) {
 		var reqV = -1
 		for _, v := range gg.Nodes() {
 			for _, call := range astx.Calls(v.Node, false) {
-				if fn := astx.Callee(gi, call); fn != nil && fn.Name() == "GetServerStatus" {
+				if fn := astx.Callee(gi, call); fn != nil && fname(fn) == "GetServerStatus" {
 					reqV = v.ID
 				}
 			}
